@@ -767,10 +767,12 @@ def gen_helper_function(g, idx, menv):
     g2 = G(g.draw, sub)
     body = [['assign', var('ft'), expr_of(g2, env, rtype, 2)]]
     env.vars['ft'] = {'type': rtype, 'dims': None}
+    if g.chance(40):
+        # generated BEFORE the result variable enters the environment: the IF precedes the first
+        # assignment of the result, so it must not read it (reading an undefined variable is UB)
+        body.append(['if', [[log_expr(g2, env, 1), [['assign', var('ft'), expr_of(g2, env, rtype, 1)]]]], None])
     body.append(['assign', var(rname), expr_of(g2, env, rtype, 2)])
     env.vars[rname] = {'type': rtype, 'dims': None}
-    if g.chance(40):
-        body.insert(1, ['if', [[log_expr(g2, env, 1), [['assign', var('ft'), expr_of(g2, env, rtype, 1)]]]], None])
     body.append(['assign', var(rname), ['b', '+', var(rname), var('ft')]])
     r = routine(name, args, decls, body, kind='function', result=res)
     if g.chance(30):
